@@ -423,6 +423,8 @@ def entry_cases(quick):
 
 
 def run(ctx):
+    from vlib import concur
+    concur.register(ctx, "C05")
     jobs = []
     for transport in ("udp", "aa55", "tcp"):
         for keep in (False, True):
@@ -438,6 +440,10 @@ def run(ctx):
 
 
 def replay(ctx, case):
+    if isinstance(case, dict) and case.get("overlap") and "callers" in case:
+        from vlib import concur
+        concur.replay(ctx.acc, case, concur.INVARIANTS["C05"], "C05")
+        return
     if "entry" in case:
         _apply(ctx.acc, case, check_entry)
     else:
